@@ -17,7 +17,7 @@ from elementpath.datatypes import builtin_atomic_types, builtin_list_types, QNam
     NumericProxy, AnyAtomicType
 from elementpath.exceptions import ElementPathKeyError, xpath_error
 from elementpath.namespaces import XSD_NAMESPACE, XSD_ERROR, XSD_DATETIME_STAMP, \
-    XSD_NUMERIC, XSD_UNTYPED, XSD_UNTYPED_ATOMIC, get_expanded_name
+    XSD_NUMERIC, XSD_UNTYPED, XSD_UNTYPED_ATOMIC, XSD_ANY_TYPE, get_expanded_name
 from elementpath.helpers import collapse_white_spaces, Patterns
 from elementpath.xpath_nodes import XPathNode, DocumentNode, ElementNode, AttributeNode
 from elementpath.xpath_tokens import XPathToken
@@ -144,6 +144,8 @@ def is_instance(obj: Any, type_qname: str, parser: ta.XPathParserType | None = N
 
     elif parser is not None and parser.schema is not None:
         type_qname = get_expanded_name(type_qname, parser.namespaces)
+        if type_qname == XSD_ANY_TYPE:
+            return True  # the root of the type hierarchy, not a type the proxy can encode
         try:
             return parser.schema.is_instance(obj, type_qname)
         except KeyError:
